@@ -63,7 +63,10 @@ Definition s_rm (s : state) (p : path) : res :=
     let victims := filter (under p) (map ie_path (st_index s)) in
     match victims with
     | [] => RErr s
-    | _ => ROk (with_both s (fold_left idx_remove victims (st_index s)) (fold_left wt_remove victims (st_wt s)))
+    | _ =>
+      (* an entry below p whose path is a directory now: "is a directory", nothing is removed *)
+      if existsb (fun v => is_dir_wt s v && negb (has_file s v)) victims then RErr s
+      else ROk (with_both s (fold_left idx_remove victims (st_index s)) (fold_left wt_remove victims (st_wt s)))
     end
   end.
 
